@@ -515,3 +515,62 @@ func ipCallers(f *ssa.Function) []*ssa.Function {
 	}
 	return ipCallersOf(f)
 }
+
+// verifyingHelpers: the functions among fns (with an error as last result) whose every nil-error return lies on the
+// err==nil edge of a call of target or of another such function: calling one of them and seeing a nil error
+// establishes that target returned nil. Used to see through "extract the verification into a helper".
+func verifyingHelpers(fns []*ssa.Function, target *types.Func) map[*ssa.Function]bool {
+	verifying := map[*ssa.Function]bool{}
+	for round := 0; round < 3; round++ {
+		for _, g := range fns {
+			if verifying[g] || g.Parent() != nil || len(g.Blocks) == 0 {
+				continue
+			}
+			res := g.Signature.Results()
+			if res.Len() == 0 || res.At(res.Len()-1).Type().String() != "error" {
+				continue
+			}
+			vcs := verifyCallsIn(g, target, verifying)
+			if len(vcs) == 0 {
+				continue
+			}
+			all, n := true, 0
+			for _, r := range ssax.Returns(g) {
+				if !ssax.IsNil(ssax.RetVal(r, res.Len()-1)) {
+					continue
+				}
+				n++
+				okR := false
+				for _, vc := range vcs {
+					if okEdge(r, vc) {
+						okR = true
+					}
+				}
+				if !okR {
+					all = false
+				}
+			}
+			if all && n > 0 {
+				verifying[g] = true
+			}
+		}
+	}
+	return verifying
+}
+
+// verifyCallsIn lists the calls in g of target or of a verifying helper.
+func verifyCallsIn(g *ssa.Function, target *types.Func, verifying map[*ssa.Function]bool) []ssa.CallInstruction {
+	var out []ssa.CallInstruction
+	for _, call := range ssax.Calls(g) {
+		switch call.(type) {
+		case *ssa.Go, *ssa.Defer:
+			continue
+		}
+		if ssax.Callee(call) == target {
+			out = append(out, call)
+		} else if h := call.Common().StaticCallee(); h != nil && verifying[h] {
+			out = append(out, call)
+		}
+	}
+	return out
+}
